@@ -367,7 +367,7 @@ def jobs(tier):
                         bounds=dict(utxos=k, strategy='default', outputs='1 payment', fee_per_byte=50,
                                     faults='the change-address lookup may fail after the inputs were reserved'),
                         must_reach=('ok-fault-released',)))
-    for k in ((0, 1) if tier == 'quick' else (0, 1, 2)):
+    for k in ((0, 1, 2) if tier == 'quick' else (0, 1, 2, 3)):
         out.append(dict(name=f'no-outputs-{k}utxo', family='no-outputs', fn='no_outputs', args=(k, None), loop_bound=200,
                         max_depth=60, cost=8 ** k, bounds=dict(utxos=k, preset_inputs=1, outputs=0)))
     return out
